@@ -10,14 +10,14 @@ for d in sorted(glob.glob(os.path.join(os.path.dirname(os.path.dirname(os.path.a
     for bf in sorted(glob.glob(os.path.join(d, "results_round*_before_strengthening.json"))):
         before = [p for p, x in sorted(json.load(open(bf)).items()) if x["exit"] == 1]
     clean = lambda t: (t or "").replace("\n", " ").replace("|", "/")
-    rows.append((os.path.basename(d), m["breaks_property"], clean(m.get("summary"))[:170], clean(m.get("needs_to_manifest"))[:140], caught, before))
-print("| id | breaks | change (by an independent sub-agent) | needs to manifest | quick checks that fire |")
-print("|---|---|---|---|---|")
+    rows.append((os.path.basename(d), m["breaks_property"], clean(m.get("summary"))[:150], "", caught, before))
+print("| id | breaks | change (by an independent sub-agent; full text in seeded/<id>/meta.json) | quick checks that fire |")
+print("|---|---|---|---|")
 for r in rows:
     extra = ""
     if r[5] is not None and set(r[5]) != set(r[4]):
         extra = " (before strengthening: %s)" % (", ".join(r[5]) or "none")
-    print("| %s | %s | %s | %s | %s%s |" % (r[0], r[1], r[2], r[3], ", ".join(r[4]) or "NONE", extra))
+    print("| %s | %s | %s | %s%s |" % (r[0], r[1], r[2], ", ".join(r[4]) or "NONE", extra))
 print()
 print("%d seeded changes; caught by the check of the property they target: %d; caught by some check: %d" % (
     len(rows), sum(1 for r in rows if r[1] in r[4]), sum(1 for r in rows if r[4])))
